@@ -87,8 +87,9 @@ class CachingLoaderMixin(ABC, _CachingLoaderProtocol):
             self.cache[cache_key] = template
             return template
 
-        if globals:
-            cached_template.global_data = globals
+        # Always rebind. A caller without globals must not see those of whoever
+        # loaded the cached template before.
+        cached_template.global_data = globals or {}
         return cached_template
 
     async def _check_cache_async(
@@ -110,8 +111,9 @@ class CachingLoaderMixin(ABC, _CachingLoaderProtocol):
             self.cache[cache_key] = template
             return template
 
-        if globals:
-            cached_template.global_data = globals
+        # Always rebind. A caller without globals must not see those of whoever
+        # loaded the cached template before.
+        cached_template.global_data = globals or {}
         return cached_template
 
     def load(
